@@ -275,7 +275,7 @@ theorem readTriple_ssmFiles {a : Arrays} (F : ArrFacts a) : readTriple (ssmFiles
   have h4 : (a.2.1.map wcMap).take a.1.length = a.2.1.map wcMap := by
     apply List.take_of_length_le; simp [F.len_wc]
   have hgt : a.1.length > 0 := hn
-  have hz : (a.1.length == 0) = false := by simp; omega
+  have hz : (a.1.length == 0) = false := by rw [beq_eq_false_iff_ne]; exact Nat.pos_iff_ne_zero.1 hn
   unfold reconcile
   simp only [h1, heq, h2, hm, h3, h4, hgt, if_true, List.any_nil, Bool.and_false, Bool.false_eq_true, if_false,
     List.length_map, F.len_wc, F.len_st, Nat.max_self, hz, bne_self_eq_false, Bool.or_false, Option.some.injEq]
@@ -342,5 +342,205 @@ theorem readTriple_ssmFiles {a : Arrays} (F : ArrFacts a) : readTriple (ssmFiles
     · have h1 : (List.range a.1.length)[i]? = none := by simp; omega
       have h2 : a.2.1[i]? = none := by simp [F.len_wc]; omega
       simp [h1, h2]
+
+/-! ## from exactness to the contract -/
+
+theorem pil_codes : ∀ p ∈ Generated.pilTable.group, Ssm.isCode p.1 = true ∧ p.1 ∈ templateChars := by decide
+theorem pil_compl : ∀ p ∈ Generated.pilTable.compl, Ssm.WC p.1 = p.2 := by decide
+theorem pil_lawful : Generated.pilTable.lawful = true := by decide
+
+theorem pil_isCode {ch : Char} (h : Generated.pilTable.isCode ch = true) :
+    Ssm.isCode ch = true ∧ ch ∈ templateChars := by
+  obtain ⟨g, hg⟩ := CodeTable.isCode_iff.1 h
+  exact pil_codes (ch, g) (CodeTable.groupOf_mem hg)
+
+theorem mask_ext_fin : ∀ m n : Fin 16, (m.val &&& 1 ≠ 0 ↔ n.val &&& 1 ≠ 0) → (m.val &&& 2 ≠ 0 ↔ n.val &&& 2 ≠ 0) →
+    (m.val &&& 4 ≠ 0 ↔ n.val &&& 4 ≠ 0) → (m.val &&& 8 ≠ 0 ↔ n.val &&& 8 ≠ 0) → m = n := by decide
+
+theorem mask_ext {m n : Nat} (hm : m < 16) (hn : n < 16) (h : ∀ b : Base, hasB m b ↔ hasB n b) : m = n := by
+  have := mask_ext_fin ⟨m, hm⟩ ⟨n, hn⟩ (h .A) (h .C) (h .G) (h .T)
+  exact congrArg Fin.val this
+
+theorem t_N (a : Arrays) : (tripleOf a).N = a.2.2.length := by simp [tripleOf, Ssm.Triple.N]
+
+theorem t_stAt {a : Arrays} {i : Nat} {o : Option Char} (h : a.2.2[i]? = some o) :
+    (tripleOf a).stAt i = stMap o := by
+  simp [tripleOf, Ssm.Triple.stAt, List.getD_eq_getElem?_getD, h]
+
+theorem t_eqAt {a : Arrays} {i : Nat} {o : Option Nat} (h : a.1[i]? = some o) :
+    (tripleOf a).eqAt i = (eqMap o).toNat := by
+  simp [tripleOf, Ssm.Triple.eqAt, List.getD_eq_getElem?_getD, h]
+
+theorem t_wcAt {a : Arrays} {i : Nat} {o : Option Nat} (h : a.2.1[i]? = some o) :
+    (tripleOf a).wcAt i = wcMap o := by
+  simp [tripleOf, Ssm.Triple.wcAt, List.getD_eq_getElem?_getD, h]
+
+theorem eqMap_some (m : Nat) : (eqMap (some m)).toNat = m + 1 := by simp [eqMap]; omega
+theorem eqMap_none : (eqMap none).toNat = 0 := by simp [eqMap]
+
+/-- what exactness says about a position: its representative -/
+theorem key_info {tbl : CodeTable} {c : Cons} {P : Nat} {a : Arrays} (wf : c.WF tbl) (G : GraphExact tbl c P a)
+    {i : Nat} (hi : i < a.1.length) (hk : i ∈ c.keys) :
+    ∃ m, a.1[i]? = some (some m) ∧ m ≤ i ∧ m ∈ c.keys ∧ m < a.1.length ∧
+      Reach (adjOf c.keys c.eq) (adjOf c.keys c.wc) i false m ∧
+      IsMin P (Reach (adjOf c.keys c.eq) (adjOf c.keys c.wc) i false) (some m) := by
+  obtain ⟨⟨v, hv, hmin⟩, _, _⟩ := G.key i hi hk
+  have hiP : i < P := Nat.lt_of_lt_of_le hi G.le_P
+  cases v with
+  | none => exact absurd hiP (hmin i Reach.refl)
+  | some m =>
+    obtain ⟨h1, h2, h3⟩ := hmin
+    have hmk : m ∈ c.keys := by
+      have := h1.mem_keys wf.pre.keyClosed (by rw [keys_adjOf]; exact hk)
+      rwa [keys_adjOf] at this
+    exact ⟨m, hv, h3 i Reach.refl hiP, hmk, G.bound m hmk h2, h1, ⟨h1, h2, h3⟩⟩
+
+theorem isMin_shift {P : Nat} {eq wc : Adj} (hp : Pre eq wc) {x y : Nat} {q : Bool} (h : Reach eq wc x q y)
+    (p : Bool) {o : Option Nat} (hm : IsMin P (Reach eq wc x (q ^^ p)) o) : IsMin P (Reach eq wc y p) o :=
+  IsMin.congr (fun z => (reach_shift_iff hp h p z).symm) hm
+
+/-- codes with the same base sets are the same code -/
+theorem code_eq_of_bits {tbl : CodeTable} (hl : tbl.lawful = true) {c d : Char} (hc : tbl.isCode c = true)
+    (hd : tbl.isCode d = true) (h : ∀ b, hasB (tbl.maskC c) b ↔ hasB (tbl.maskC d) b) : c = d :=
+  CodeTable.maskC_inj hl hc hd (mask_ext (maskC_lt16 _ _) (maskC_lt16 _ _) h)
+
+/-- **From exactness to the contract** (table of `PIL_DNA_classes.py`): the triple the C program holds after
+    reading the written files satisfies the documented input contract. -/
+theorem contract_of_exact {c : Cons} {P : Nat} {a : Arrays} (wf : c.WF Generated.pilTable)
+    (G : GraphExact Generated.pilTable c P a) : Ssm.Contract (tripleOf a) := by
+  have hl := pil_lawful
+  have hp := wf.pre
+  have hn := G.n_pos
+  have hN : (tripleOf a).N = a.1.length := by rw [t_N, G.len_st]
+  have klast : a.1.length - 1 < a.1.length := by omega
+  refine ⟨by rw [hN]; exact hn, by simp [tripleOf, hN], by simp [tripleOf, hN, G.len_wc], ?_, ?_⟩
+  · rw [hN]
+    obtain ⟨_, _, ch, hch, hcode, _⟩ := G.key _ klast G.last
+    rw [t_stAt hch]
+    exact Ssm.isCode_ne_blank (pil_isCode hcode).1
+  · intro i hi
+    rw [hN] at hi
+    by_cases hk : i ∈ c.keys
+    · obtain ⟨m, hem, hmi, hmk, hmn, hrm, hmin⟩ := key_info wf G hi hk
+      obtain ⟨_, ⟨w, hw, hwmin⟩, ch, hch, hcode, hbits⟩ := G.key i hi hk
+      -- the representative's own entries
+      obtain ⟨m', hem', _, _, _, _, hmin'⟩ := key_info wf G hmn hmk
+      obtain ⟨_, ⟨wm, hwm, hwmmin⟩, chm, hchm, hcodem, hbitsm⟩ := G.key m hmn hmk
+      have e1 : m' = m := by
+        have := IsMin.unique hmin' (isMin_shift hp hrm false (by simpa using hmin))
+        simpa using this
+      subst e1
+      have e2 : wm = w := IsMin.unique hwmmin (isMin_shift hp hrm true (by simpa using hwmin))
+      have e3 : chm = ch := by
+        apply code_eq_of_bits hl hcodem hcode
+        intro b
+        rw [hbitsm, hbits, Common.shift hp hrm b]; simp [flipB]
+      subst e2 e3
+      refine ⟨⟨?_, ?_, ?_⟩, ?_, ?_⟩
+      · rw [t_stAt hch, t_eqAt hem, eqMap_some]
+        simp only [stMap]
+        constructor
+        · intro h; exact absurd h (Ssm.isCode_ne_blank (pil_isCode hcode).1)
+        · intro h; omega
+      · intro _
+        rw [t_stAt hch]; exact (pil_isCode hcode).1
+      · rw [t_eqAt hem, eqMap_some]; intro h; omega
+      · intro _
+        rw [t_eqAt hem, eqMap_some]
+        simp only [Nat.add_sub_cancel]
+        rw [t_eqAt hem', eqMap_some, t_wcAt hwm, t_wcAt hw, t_stAt hchm, t_stAt hch]
+        exact ⟨by omega, rfl, rfl, rfl⟩
+      · intro hne
+        rw [t_wcAt hw] at hne
+        cases w with
+        | none => exact absurd rfl hne
+        | some w =>
+          obtain ⟨hrw, hwP, hwle⟩ := hwmin
+          have hwk : w ∈ c.keys := by
+            have := hrw.mem_keys hp.keyClosed (by rw [keys_adjOf]; exact hk)
+            rwa [keys_adjOf] at this
+          have hwn : w < a.1.length := G.bound w hwk hwP
+          obtain ⟨w', hew', _, _, _, _, hminw⟩ := key_info wf G hwn hwk
+          obtain ⟨_, ⟨ww, hww, hwwmin⟩, chw, hchw, hcodew, hbitsw⟩ := G.key w hwn hwk
+          have f1 : w' = w := by
+            have := IsMin.unique hminw (isMin_shift hp hrw false (o := some w) ⟨hrw, hwP, hwle⟩)
+            simpa using this
+          subst f1
+          have f2 : ww = some m := IsMin.unique hwwmin (isMin_shift hp hrw true (by simpa using hmin))
+          subst f2
+          have hwm : w ≠ m := by
+            intro e
+            subst e
+            have := hrw.trans (hrm.symm hp.eqSymm hp.wcSymm)
+            simp at this
+            exact G.noself i hk this
+          -- the codes are complementary
+          obtain ⟨dw, hdw, hdwcode⟩ := CodeTable.isCode_compl hl hcodew
+          have hcomp : ch = dw := by
+            apply code_eq_of_bits hl hcode hdwcode
+            intro b
+            rw [hbits, CodeTable.complOf_mask hl hdw, hasB_compl (maskC_lt16 _ _), hbitsw,
+              Common.shift hp hrw b.compl]
+            simp [flipB, Base.compl_compl]
+          have hWC : Ssm.WC chw = dw := pil_compl (chw, dw) (assoc_mem hdw)
+          have hix : (tripleOf a).wcIx i = w := by
+            simp [Ssm.Triple.wcIx, t_wcAt hw, wcMap]
+          rw [hix, t_wcAt hw, t_eqAt hem, eqMap_some, t_eqAt hew', eqMap_some, t_wcAt hww, t_stAt hch,
+            t_stAt hchw, hN]
+          simp only [wcMap, stMap]
+          refine ⟨by omega, by omega, ?_, by omega, by omega, ?_⟩
+          · intro e; apply hwm; omega
+          · rw [hWC, hcomp]
+    · obtain ⟨h1, h2, h3⟩ := G.blank i hi hk
+      refine ⟨⟨?_, ?_, ?_⟩, ?_, ?_⟩
+      · rw [t_stAt h3, t_eqAt h1, eqMap_none]; simp [stMap]
+      · rw [t_stAt h3]; intro h; exact absurd rfl h
+      · intro _; rw [t_wcAt h2]; rfl
+      · intro h; rw [t_eqAt h1, eqMap_none] at h; exact absurd rfl h
+      · intro h; rw [t_wcAt h2] at h; exact absurd rfl h
+
+/-- the array-level facts needed for the read-back follow from exactness -/
+theorem arrFacts_of_exact {c : Cons} {P : Nat} {a : Arrays} (wf : c.WF Generated.pilTable)
+    (G : GraphExact Generated.pilTable c P a) : ArrFacts a := by
+  have inRange : ∀ {α : Type} (l : List α) (i : Nat) (v : α), l[i]? = some v → i < l.length := by
+    intro α l i v h
+    exact (List.getElem?_eq_some_iff.1 h).1
+  constructor
+  · exact G.n_pos
+  · exact G.len_wc
+  · exact G.len_st
+  · intro v hv
+    have klast : a.1.length - 1 < a.1.length := by have := G.n_pos; omega
+    obtain ⟨m, hem, _⟩ := key_info wf G klast G.last
+    rw [hem] at hv
+    cases hv
+    simp
+  · intro i v w hv hw
+    have hi := inRange _ _ _ hv
+    by_cases hk : i ∈ c.keys
+    · obtain ⟨m, hem, _⟩ := key_info wf G hi hk
+      obtain ⟨_, _, ch, hch, _⟩ := G.key i hi hk
+      rw [hem] at hv; rw [hch] at hw
+      cases hv; cases hw
+      simp
+    · obtain ⟨h1, _, h3⟩ := G.blank i hi hk
+      rw [h1] at hv; rw [h3] at hw
+      cases hv; cases hw
+      simp
+  · intro i w hv hw
+    have hi := inRange _ _ _ hv
+    by_cases hk : i ∈ c.keys
+    · obtain ⟨m, hem, _⟩ := key_info wf G hi hk
+      rw [hem] at hv; cases hv
+    · obtain ⟨_, h2, _⟩ := G.blank i hi hk
+      rw [h2] at hw; cases hw; rfl
+  · intro i ch hch
+    have hi : i < a.1.length := by rw [← G.len_st]; exact inRange _ _ _ hch
+    by_cases hk : i ∈ c.keys
+    · obtain ⟨_, _, ch', hch', hcode, _⟩ := G.key i hi hk
+      rw [hch'] at hch; cases hch
+      exact pil_isCode hcode
+    · obtain ⟨_, _, h3⟩ := G.blank i hi hk
+      rw [h3] at hch; cases hch
 
 end Pepper.ConstraintGen
